@@ -1,1 +1,465 @@
--- C10: property theorems (to be filled in)
+/-
+C10 — property theorems. Every statement is universally quantified: over all base names, pointer
+depths and interleavings of blanks (§1), all indirection totals (§2), all registries, receivers and
+deref counts (§3), all metadata lists (§4), all chains of calls (§5), all namespace states (§6).
+Helper lemmas live in `Proofs.lean`.
+-/
+import FaxVerif.C10.Proofs
+set_option linter.unusedSimpArgs false
+namespace FaxVerif.C10
+
+/-! ## 1. type strings -/
+
+/-- **C10.parse_type** — for every base name that does not itself begin with a blank or `const `
+and does not end with a blank or a star, every pointer depth `k = gaps.length`, every choice of
+blank runs before the name, before each star and after the last star, and with or without a
+leading `const `: `parse_type` returns exactly (base, k, const?). -/
+theorem parse_type (isConst : Bool) (base pre post : List Char) (gaps : List (List Char))
+    (hb : Clean base) (hpre : allWs pre = true) (hpost : allWs post = true)
+    (hg : ∀ g ∈ gaps, allWs g = true) :
+    DecorOk isConst base gaps (parseType (decorate isConst base pre gaps post)) :=
+  parse_decorate_gen isConst base pre post gaps hb.1 (fun _ => hb.2) hpre hpost hg
+
+/-- The same for a `const` type whose name may begin with anything (the Python does not strip
+after removing `const `): only the end of the name matters. -/
+theorem parse_type_const (base pre post : List Char) (gaps : List (List Char))
+    (hb : EndsClean base) (hpre : allWs pre = true) (hpost : allWs post = true)
+    (hg : ∀ g ∈ gaps, allWs g = true) :
+    DecorOk true base gaps (parseType (decorate true base pre gaps post)) :=
+  parse_decorate_gen true base pre post gaps hb (by intro h; cases h) hpre hpost hg
+
+/-- **C10.parse_print_idem** — printing a parsed type the way `terminal.__str__` does and parsing
+it again gives the same parsed type, for *every* input string (also ill-formed ones). -/
+theorem parse_print_idem (s : List Char) : parseType (parseType s).full = parseType s :=
+  parse_full_idem s
+
+/-- Consequently print ∘ parse is idempotent on strings. -/
+theorem print_parse_idem (s : List Char) :
+    (parseType (parseType s).full).full = (parseType s).full := by rw [parse_full_idem]
+
+-- non-vacuity / literals the repo's own tests use
+example : parseType "const  std::vector<int *> * *  ".toList = ⟨" std::vector<int *>".toList, 2, true⟩ := by decide
+example : Clean "std::vector<int *>".toList := by decide
+example : Clean "unsigned  long".toList := by decide
+example : ¬ Clean "int*".toList := by decide
+example : parseType "float".toList = ⟨"float".toList, 0, false⟩ := by decide
+example : parseType "int**".toList = ⟨"int".toList, 2, false⟩ := by decide
+/-- `CPPParsedTypeInfo.__str__` loses `const`: the default collection type of a `const T*`
+element is `std::vector<T*>` -/
+example : (parseType "const T *".toList).str = "T*".toList := by decide
+
+/-! ## 2. member access -/
+
+/-- **C10.access_depth** — for every pointer depth `d` and extra dereference count `n`,
+`base_type_member_access` returns `x.` when `d + n = 0` and otherwise `x` under exactly
+`d + n - 1` applications of `(*·)` followed by `->`: the text consumes `d + n` indirections. -/
+theorem access_depth (x : String) (d n : Nat) : AccessOk x d n (accessText x (d + n)) := by
+  unfold AccessOk accessText accessClosed
+  by_cases h : d + n = 0
+  · simp [h]
+  · simp only [h, if_false]; rw [wrapN_closed]
+
+/-- the expression tree the model builds prints as that text followed by the call -/
+theorem access_render (e : CExpr) (k : Nat) (m : String) :
+    render (accessE e k m none) = accessText (render e) k ++ m ++ "()" := by
+  unfold accessE accessText
+  by_cases h : k = 0
+  · subst h; simp [render, wrapE, String.append_assoc]
+  · have hk : 0 < k := Nat.pos_of_ne_zero h
+    simp [render, render_wrapE, h, hk, String.append_assoc]
+
+example : accessText "x" 0 = "x." := by decide
+example : accessText "x" 1 = "x->" := by decide
+example : accessText "x" 2 = "(*x)->" := by decide
+example : accessText "x" 4 = "(*(*(*x)))->" := by decide
+
+/-- **C10.access_typed** — the C++ typing rules for `.`, `->` and unary `*`: if `e` has type `T`
+behind `d` pointers and the metadata declares method `m` of `T` with deref count `n` and return
+type `ρ`, then the synthesised access `(*…(*e))->m()` / `e->m()` / `e.m()` for total indirection
+`d + n` is well typed and has type `ρ` — for every `d` and `n`. -/
+theorem access_typed (D : Decls) (Γ : List (String × CT)) (e : CExpr) (T : Term) (m : String) (i : Info)
+    (he : typeOf D Γ e = some (ctOf T)) (hdecl : D.reg.find T.name m = some i) :
+    typeOf D Γ (accessE e (T.depth + i.deref) m none) = some (ctOf i.rty.term) :=
+  typeOf_access_declared D Γ e T m i none he hdecl
+
+/-- **C10.access_exact** — and only for that total: an access built for any other number of
+indirections (a dropped `deref_count`, `.` for `->`, one star too many or too few) is ill typed. -/
+theorem access_exact (D : Decls) (Γ : List (String × CT)) (e : CExpr) (T : Term) (m : String) (i : Info)
+    (k : Nat) (he : typeOf D Γ e = some (ctOf T)) (hdecl : D.reg.find T.name m = some i) :
+    (typeOf D Γ (accessE e k m none)).isSome ↔ k = T.depth + i.deref := by
+  constructor
+  · intro h
+    rw [typeOf_accessE_none] at h
+    cases hw : typeOf D Γ (wrapE (k - 1) e) with
+    | none => simp [hw] at h
+    | some t =>
+      simp only [hw] at h
+      obtain ⟨hc, hl, hd⟩ := wrapE_type_inv D Γ (k - 1) e _ t he hw
+      simp only [ctOf] at hc hl hd
+      unfold Decls.select at h
+      cases hdep : t.depth with
+      | zero =>
+        simp only [hdep] at h
+        by_cases hk : 0 < k
+        · simp only [hk, decide_true, if_true] at h
+          obtain ⟨r, hr⟩ := Option.isSome_iff_exists.1 h
+          rw [hc] at hr
+          have := (methodOf_declared_inv hdecl hr).1
+          omega
+        · simp only [hk, decide_false] at h
+          obtain ⟨r, hr⟩ := Option.isSome_iff_exists.1 h
+          rw [hc] at hr
+          have := (methodOf_declared_inv hdecl hr).1
+          omega
+      | succ d' =>
+        cases d' with
+        | zero =>
+          simp only [hdep] at h
+          by_cases hk : 0 < k
+          · simp only [hk, decide_true, if_true] at h
+            obtain ⟨r, hr⟩ := Option.isSome_iff_exists.1 h
+            rw [hc] at hr
+            have := (methodOf_declared_inv hdecl hr).1
+            omega
+          · simp [hk] at h
+        | succ d'' => simp [hdep] at h
+  · rintro rfl
+    rw [access_typed D Γ e T m i he hdecl]; rfl
+
+-- a small class table: `T0::m1` returns `T1**` and needs one `operator*`; `T1::v` returns double
+def exReg : Registry :=
+  [(("T1", "v"), ⟨.value { name := "double", depth := 0, tree := some "float" }, 0⟩),
+   (("T0", "m1"), ⟨.value { name := "T1", depth := 2 }, 1⟩),
+   (("T1", "c"), ⟨.coll { name := "MyVec", depth := 1 } { name := "T1", depth := 1 }, 0⟩),
+   (("T1", "cc"), ⟨.coll { name := "MyVec", depth := 2 } { name := "T1", depth := 1 }, 0⟩),
+   (("T1", "p"), ⟨.value { name := "double", depth := 1, tree := some "float" }, 0⟩)]
+def exD : Decls := { reg := exReg, rootColl := "TC", rootElem := { cls := "T0", lvl := 0, depth := 1 } }
+def exΓ : List (String × CT) := [("v0", { cls := "T0", lvl := 0, depth := 1 })]
+
+example : render (accessE (.var "v0") 2 "m1" none) = "(*v0)->m1()" := by decide
+example : typeOf exD exΓ (accessE (.var "v0") 2 "m1" none) = some { cls := "T1", lvl := 0, depth := 2 } := by decide
+example : typeOf exD exΓ (accessE (.var "v0") 1 "m1" none) = none := by decide   -- deref_count ignored
+example : typeOf exD exΓ (accessE (.var "v0") 3 "m1" none) = none := by decide   -- one star too many
+example : exD.consistent = true := by decide
+
+/-! ## 3. registry lookup -/
+
+/-- **C10.declared_type_used** — a declared method is typed with exactly what was declared
+(return type, deref count), silently. -/
+theorem declared_type_used (reg : Registry) (parent : Term) (m : String) (i : Info)
+    (h : reg.find parent.name m = some i) : determineTypeMf reg parent m = .ok (i, false) := by
+  simp [determineTypeMf, h]
+
+/-- **C10.fallback_double_warns** — a method with no declaration, on a receiver that is not
+`double`/`float`/`int`, is assumed to return a plain `double` (pointer depth 0, no extra
+dereference) and the warning flag is raised; on `double`/`float`/`int` the call is refused.
+(The three constants are regenerated from `determine_type_mf` on every run.) -/
+theorem fallback_double_warns (reg : Registry) (parent : Term) (m : String)
+    (h : reg.find parent.name m = none) :
+    (parent.name ∉ ["double", "float", "int"] →
+      determineTypeMf reg parent m = .ok (⟨.value { name := "double", depth := 0 }, 0⟩, true)) ∧
+    (parent.name ∈ ["double", "float", "int"] → determineTypeMf reg parent m = .error .cannotCall) := by
+  constructor
+  · intro hb
+    have : parent.name ∉ Generated.C10.baseTypes := hb
+    simp [determineTypeMf, h, this, fallbackInfo, Generated.C10.fallbackType, Generated.C10.fallbackDepth,
+      Generated.C10.fallbackDeref]
+  · intro hb
+    have : parent.name ∈ Generated.C10.baseTypes := hb
+    simp [determineTypeMf, h, this]
+
+/-- the fallback branch logs at level `warning` (generated from the source) -/
+theorem fallback_logs_warning : Generated.C10.fallbackLogs = "warning" := by decide
+
+/-- the warning flag is raised *only* by the fallback -/
+theorem warns_iff_undeclared (reg : Registry) (parent : Term) (m : String) (i : Info) :
+    determineTypeMf reg parent m = .ok (i, true) → reg.find parent.name m = none := by
+  intro h
+  cases hf : reg.find parent.name m with
+  | none => rfl
+  | some j => simp [determineTypeMf, hf] at h
+
+/-! ## 4. metadata → registry -/
+
+/-- **C10.md_keys** — the method branch of `process_metadata` reads exactly these keys (the list
+is regenerated from the source on every run): the ones `mdInfo` models, no other. -/
+theorem md_keys : Generated.C10.methodMdKeys =
+    ["deref_count", "method_name", "return_type", "return_type_collection", "return_type_element",
+     "tree_type", "type_string"] := by decide
+
+/-- **C10.md_value_type** — a single-value declaration whose `return_type` is any decoration of a
+clean base name with `k` stars registers a terminal (base, depth k) carrying the declared
+`tree_type`, and the declared `deref_count` (0 when absent). -/
+theorem md_value_type (md : MethodMd) (rt : String) (isConst : Bool) (base pre post : List Char)
+    (gaps : List (List Char)) (hrt : md.returnType = some rt)
+    (hs : rt.toList = decorate isConst base pre gaps post)
+    (hb : Clean base) (hpre : allWs pre = true) (hpost : allWs post = true) (hg : ∀ g ∈ gaps, allWs g = true) :
+    mdInfo md = .ok ⟨.value { name := String.ofList base, depth := gaps.length, isConst := false, tree := md.treeType },
+      md.derefCount.getD 0⟩ := by
+  have hp := parse_type isConst base pre post gaps hb hpre hpost hg
+  unfold DecorOk at hp
+  simp [mdInfo, hrt, hs, hp]
+
+/-- **C10.md_collection_type** — a collection declaration registers a collection whose element
+is the parsed `return_type_element` (depth = number of stars) and whose array type is the parsed
+`return_type_collection` (by value or by pointer of any depth). -/
+theorem md_collection_type (md : MethodMd) (et ct : String) (ce cc : Bool) (be bc pre1 post1 pre2 post2 : List Char)
+    (g1 g2 : List (List Char)) (hnone : md.returnType = none) (het : md.elemType = some et) (hct : md.collType = some ct)
+    (hs1 : et.toList = decorate ce be pre1 g1 post1) (hs2 : ct.toList = decorate cc bc pre2 g2 post2)
+    (hb1 : Clean be) (hb2 : Clean bc) (hpre1 : allWs pre1 = true) (hpost1 : allWs post1 = true)
+    (hpre2 : allWs pre2 = true) (hpost2 : allWs post2 = true)
+    (hg1 : ∀ g ∈ g1, allWs g = true) (hg2 : ∀ g ∈ g2, allWs g = true) :
+    mdInfo md = .ok ⟨.coll { name := String.ofList bc, depth := g2.length, isConst := cc }
+                          { name := String.ofList be, depth := g1.length, isConst := ce },
+                     md.derefCount.getD 0⟩ := by
+  have hp1 := parse_type ce be pre1 post1 g1 hb1 hpre1 hpost1 hg1
+  have hp2 := parse_type cc bc pre2 post2 g2 hb2 hpre2 hpost2 hg2
+  unfold DecorOk at hp1 hp2
+  simp [mdInfo, hnone, het, hct, hs1, hs2, hp1, hp2, mkCollection, Term.ofParsed]
+
+/-- without `return_type_collection` the array type is `std::vector<element>` by value -/
+theorem md_collection_default (md : MethodMd) (et : String) (hnone : md.returnType = none)
+    (het : md.elemType = some et) (hct : md.collType = none) :
+    ∃ arr elem, mdInfo md = .ok ⟨.coll arr elem, md.derefCount.getD 0⟩ ∧ arr.depth = 0 ∧
+      elem = Term.ofParsed (parseType et.toList) ∧
+      arr.name = String.ofList ("std::vector<".toList ++ (parseType et.toList).str ++ ">".toList) := by
+  refine ⟨Term.ofParsed ⟨"std::vector<".toList ++ (parseType et.toList).str ++ ">".toList, 0, false⟩,
+    Term.ofParsed (parseType et.toList), ?_, rfl, rfl, rfl⟩
+  simp only [mdInfo, hnone, het, hct, mkCollection]
+
+/-- **C10.md_registry** — after `process_metadata`, looking a method up returns the *last*
+declaration made for it in the list (what `determine_type_mf` will use), or what was registered
+before when the list does not mention it. -/
+theorem md_registry : ∀ (mds : List MethodMd) (reg reg' : Registry) (t m : String),
+    processMds mds reg = .ok reg' →
+    reg'.find t m =
+      (match mds.reverse.find? (fun md => md.typeString = t ∧ md.method = m) with
+       | some md => (mdInfo md).toOption
+       | none => reg.find t m) := by
+  intro mds
+  induction mds with
+  | nil => intro reg reg' t m h; simp [processMds] at h; subst h; simp
+  | cons md rest ih =>
+    intro reg reg' t m h
+    unfold processMds at h
+    cases hi : mdInfo md with
+    | error e => simp [hi] at h
+    | ok i =>
+      simp only [hi] at h
+      rw [ih _ _ t m h]
+      simp only [List.reverse_cons, List.find?_append]
+      cases hf : rest.reverse.find? (fun md => md.typeString = t ∧ md.method = m) with
+      | some md' => simp
+      | none =>
+        simp only [Option.none_or, List.find?_cons, List.find?_nil]
+        by_cases hk : md.typeString = t ∧ md.method = m
+        · simp [hk, Registry.add, Registry.find, hi, Except.toOption]
+        · simp only [hk, decide_false]
+          simp [Registry.add, Registry.find, hk]
+
+/-- a declaration list is refused only because some entry has neither `return_type` nor
+`return_type_element` -/
+theorem md_error_justified : ∀ (mds : List MethodMd) (reg : Registry) (e : Err),
+    processMds mds reg = .error e → e = .keyError ∧ ∃ md ∈ mds, md.returnType = none ∧ md.elemType = none := by
+  intro mds
+  induction mds with
+  | nil => intro reg e h; simp [processMds] at h
+  | cons md rest ih =>
+    intro reg e h
+    unfold processMds at h
+    cases hi : mdInfo md with
+    | error e' =>
+      simp only [hi, Except.error.injEq] at h
+      subst h
+      unfold mdInfo at hi
+      cases hr : md.returnType with
+      | some rt => simp [hr] at hi
+      | none =>
+        cases he : md.elemType with
+        | some et => simp [hr, he] at hi
+        | none => simp [hr, he] at hi; exact ⟨hi.symm, md, by simp, hr, he⟩
+    | ok i =>
+      simp only [hi] at h
+      obtain ⟨h1, md', hm, h2⟩ := ih _ _ h
+      exact ⟨h1, md', by simp [hm], h2⟩
+
+/-! ## 5. chains of declared calls, collections, columns -/
+
+/-- The initial state of a column: the element variable of the event collection. -/
+theorem initial_inv (D : Decls) (rootElem : Term) :
+    ChainInv D [(loopVar 0, ctOf rootElem)]
+      { gamma := [(loopVar 0, ctOf rootElem)], loops := [], nvar := 1, e := .var (loopVar 0),
+        ty := .value rootElem, warns := [], iterDepths := [] } :=
+  ⟨by simp [typeOf, RTy.term], rfl, rfl, rfl⟩
+
+/-
+Full statement (FALSE of the code, see `collection_deep_pointer_counterexample`):
+  for every consistent set of declarations and every chain of calls / indexings / iterations the
+  translator accepts, every emitted expression and loop is well typed with the declared types.
+-/
+/-- **C10.chain_typed_partial** — for every consistent set of declarations, every start state and
+every chain (any length) of method calls with or without an argument, indexings and iterations
+that the translator accepts: the final value expression has in C++ exactly the type the
+translator holds for it (so every use downstream is made "accordingly"), every loop opened on
+the way iterates over a collection of the declared classes and binds its variable to the declared
+element type, and every undeclared call is typed `double` under a logged warning.
+Hypotheses: the classes are consistent (`Decls.consistent`, decidable); the warnings the
+judgement may rely on are the ones the chain raised; no undeclared method is called `at`; and —
+the defect exclusion — every collection a loop is opened on is reached through at most one pointer
+(`iterDepths`, computed by the model). -/
+theorem chain_typed_partial (D : Decls) (Γ0 : List (String × CT)) (steps : List Step) (s s' : ChainSt)
+    (hc : D.consistent = true) (hrun : runChain D.reg steps s = .ok s') (hinv : ChainInv D Γ0 s)
+    (hwarn : ∀ w ∈ s'.warns, w ∈ D.warned) (hnoat : ∀ w ∈ D.warned, w.2 ≠ "at")
+    (hshallow : ∀ d ∈ s'.iterDepths, d ≤ 1) :
+    typeOf D s'.gamma s'.e = some (ctOf s'.ty.term) ∧ loopsOk D Γ0 s'.loops = some s'.gamma ∧
+    tyOk D s'.ty = true := by
+  have := runChain_inv D Γ0 hc hnoat steps s s' hrun hinv hwarn hshallow
+  exact ⟨this.typed, this.loops, this.tyok⟩
+
+/-- **C10.collection_loop_typed** — a collection `coll(arr, elem)` held by value or through one
+pointer is iterated with the *element* type: the range expression `e` / `*e` is iterable and the
+loop variable is bound to `elem`; and indexing through *any* pointer depth returns `elem`. -/
+theorem collection_loop_typed (D : Decls) (Γ : List (String × CT)) (e : CExpr) (arr elem : Term)
+    (hc : D.consistent = true) (he : typeOf D Γ e = some (ctOf arr)) (hok : tyOk D (.coll arr elem) = true) :
+    (arr.depth ≤ 1 →
+      ∃ t, typeOf D Γ (if arr.depth = 0 then e else .deref e) = some t ∧ D.iterOfTy t = some (ctOf elem)) ∧
+    (∀ i, typeOf D Γ (accessE e arr.depth "at" (some (.lit i))) = some (ctOf elem)) := by
+  simp only [tyOk, decide_eq_true_eq] at hok
+  constructor
+  · intro hd
+    by_cases h0 : arr.depth = 0
+    · exact ⟨ctOf arr, by simp [h0, he], by simp [Decls.iterOfTy, ctOf, h0, hok]⟩
+    · have h1 : arr.depth = 1 := by omega
+      exact ⟨{ cls := arr.name, lvl := 0, depth := 0 }, by simp [h0, typeOf, he, ctOf, h1],
+        by simp [Decls.iterOfTy, hok]⟩
+  · intro i
+    have := typeOf_access_method D Γ e arr "at" (some i) (ctOf elem) he
+      (methodOf_at D _ _ (consistent_no_at hc _) hok)
+    simpa using this
+
+/-- **C10.collection_deep_pointer_counterexample** — the full statement of `chain_typed` is false
+of the code: a collection returned through a pointer of depth 2 is dereferenced once only, so
+the range-`for` iterates over a pointer. -/
+theorem collection_deep_pointer_counterexample :
+    ∃ (steps : List Step) (out : ColOut), runCol exReg { name := "T0", depth := 1 } steps .plain = .ok out ∧
+      out.iterDepths = [2] ∧
+      loopsOk exD [("v0", { cls := "T0", lvl := 0, depth := 1 })] out.loops = none :=
+  ⟨[.call "m1" none, .call "cc" none, .each, .call "v" none], _, rfl, by decide, by decide⟩
+
+/-
+Full statement (FALSE of the code, see `tree_type_pointer_counterexample`):
+  every column variable carries the declared (tree) type of its value and the assignment is well typed.
+-/
+/-- **C10.column_typed_partial** (`tree_type`) — the class variable of a column is declared with
+the declared `tree_type` when there is one and with the declared type otherwise (wrapped in
+`std::vector<…>` for a sequence), at the value's pointer depth; a `static_cast` to that type is
+inserted exactly when the names differ; and the assignment / `push_back` is well typed.
+Hypothesis (defect exclusion): when a cast is needed the value is not a pointer and both types
+are arithmetic or enum. -/
+theorem column_typed_partial (D : Decls) (Γ0 : List (String × CT)) (s : ChainSt) (out : ColOut)
+    (hinv : ChainInv D Γ0 s) (hfin : finishCol s .plain = .ok out)
+    (hconst : s.ty.term.isConst = false)
+    (hcast : ∀ tt, s.ty.term.tree = some tt → tt ≠ s.ty.term.name →
+      s.ty.term.depth = 0 ∧ (s.ty.term.name ∈ arithAll ∨ D.isEnum s.ty.term.name = true) ∧ tt ∈ arithAll) :
+    colOk D s.gamma out.decl out.isSeq out.rhs = true ∧
+    out.decl = (if out.isSeq then "std::vector<" ++ s.ty.term.treeType.name ++ starsS s.ty.term.depth ++ ">"
+                else s.ty.term.treeType.name ++ starsS s.ty.term.depth) := by
+  have htyped := hinv.typed
+  have hdecl := hinv.declared
+  unfold finishCol at hfin
+  cases hty : s.ty with
+  | coll a b => simp [hty] at hfin
+  | value t =>
+    simp only [hty, Except.ok.injEq] at hfin
+    rw [hty] at htyped hconst hcast
+    simp only [RTy.term] at htyped hconst hcast
+    have hstr : t.treeType.str = t.treeType.name ++ starsS t.depth := by
+      cases htree : t.tree <;> simp [Term.treeType, Term.str, htree, hconst]
+    have hsc : stripCast s.e = (s.e, none) := by
+      cases he : s.e <;> simp_all [stripCast, isDeclaredValue]
+    subst hfin
+    simp only [RTy.term]
+    refine ⟨?_, by simp only [hstr]; split <;> simp [String.append_assoc]⟩
+    cases htree : t.tree with
+    | none =>
+      simp only [Term.treeType, htree, if_true]
+      simp [colOk, hsc, htyped, hdecl, ctOf, htree, Term.str, hconst]
+    | some tt =>
+      by_cases hn : tt = t.name
+      · simp only [Term.treeType, htree, hn, if_true]
+        simp [colOk, hsc, htyped, hdecl, ctOf, htree, hn, Term.str, hconst]
+      · obtain ⟨h0, h1, h2⟩ := hcast tt htree hn
+        simp only [Term.treeType, htree, hn, if_false]
+        have hcastty : typeOf D s.gamma (.cast tt s.e) = some { cls := tt, lvl := 0, depth := 0 } := by
+          simp [typeOf, htyped, ctOf, h0, h1, h2]
+        simp [colOk, stripCast, htyped, hcastty, hdecl, ctOf, htree, hn, Term.str, hconst, h0]
+
+/-- **C10.tree_type_pointer_counterexample** — a pointer-valued method with a `tree_type`
+(`double*` stored as `float`): the column is declared `float*` but the value is pushed through
+`static_cast<float>(…)`, which is ill typed. -/
+theorem tree_type_pointer_counterexample :
+    ∃ (steps : List Step) (out : ColOut), runCol exReg { name := "T0", depth := 1 } steps .plain = .ok out ∧
+      out.decl = "float*" ∧ render out.rhs = "static_cast<float>((*(*v0)->m1())->p())" ∧
+      colOk exD [("v0", { cls := "T0", lvl := 0, depth := 1 })] out.decl out.isSeq out.rhs = false :=
+  ⟨[.call "m1" none, .call "p" none], _, rfl, by decide, by decide, by decide⟩
+
+-- non-vacuity: a chain through deref-count, double pointer, collection by pointer, loop, tree_type
+example :
+    (runCol exReg { name := "T0", depth := 1 } [.call "m1" none, .call "c" none, .each, .call "v" none] .plain).toOption.map
+      (fun o => (o.loops.map (fun x => (x.1, render x.2)), o.decl, render o.rhs)) =
+    some ([("v1", "*(*(*v0)->m1())->c()")], "std::vector<float>", "static_cast<float>(v1->v())") := by decide
+example :
+    (runCol exReg { name := "T0", depth := 1 } [.call "m1" none, .call "c" none, .index 0, .call "v" none] .plain).toOption.map
+      (fun o => (o.decl, render o.rhs)) =
+    some ("float", "static_cast<float>((*(*v0)->m1())->c()->at(0)->v())") := by decide
+
+/-! ## 6. enums -/
+
+/-- **C10.enum_qualified** — in every namespace state, after `define_enum(ns, name, values)` the
+python expression `ns.….name.v` resolves, for every value `v` of the enum registered under that
+name (the given values unless an enum of that name was defined before — first definition wins),
+to a value whose C++ text is the qualified name `ns::…::v`; its type is the enum's full name.
+Hypotheses: no namespace of the same name shadows the enum (`get_ns` is consulted first) and the
+value name contains no dot. -/
+theorem enum_qualified (st : NsState) (nsName : List Char) (name : Seg) (values : List Seg) :
+    ∃ e, (defineEnum st nsName name values).findEnum (splitDots nsName) name = some e ∧
+      (st.findEnum (splitDots nsName) name = none → e.values = values) ∧
+      ∀ v ∈ e.values, '.' ∉ v → splitDots nsName ++ [name] ∉ (defineEnum st nsName name values).nss →
+        ∃ cpp, resolvePath (defineEnum st nsName name values) (splitDots nsName ++ [name, v]) = .ok (.value cpp e.fullName) ∧
+          EnumOk (splitDots nsName) v cpp := by
+  obtain ⟨e, he, hnew⟩ := findEnum_defineEnum st nsName name values
+  refine ⟨e, he, fun h => by rw [hnew h], ?_⟩
+  intro v hv hdot hshadow
+  obtain ⟨hens, hename, _⟩ := findEnum_spec he
+  have hnss := defineEnum_nss st nsName name values
+  cases hp : splitDots nsName with
+  | nil => exact absurd hp (splitDots_ne_nil nsName)
+  | cons x rest =>
+    have hpre : ∀ k, 0 < k → k ≤ (x :: rest).length → (x :: rest).take k ∈ (defineEnum st nsName name values).nss := by
+      intro k h1 h2; rw [hnss, hp]; exact defineNs_prefix st (x :: rest) k h1 h2
+    have hx : [x] ∈ (defineEnum st nsName name values).nss := by simpa using hpre 1 (by omega) (by simp)
+    refine ⟨valueAsCpp e v, ?_, ?_⟩
+    · simp only [List.cons_append, resolvePath, hx, if_true]
+      rw [resolveFrom_walk _ rest [x] [name, v]
+        (by intro k h1 h2; have := hpre (k + 1) (by omega) (by simpa using h2); simpa using this)]
+      rw [hp] at hshadow he
+      simp only [List.cons_append, List.nil_append] at hshadow ⊢
+      simp [resolveFrom, resolveStep, hshadow, he, hv]
+    · unfold EnumOk
+      rw [valueAsCpp_qualified e v (by rw [hens, hp]; simp) (by rw [hens]; exact splitDots_no_dot nsName) hdot, hens, hp]
+
+/-- an enum value has no members: `.x` on it is refused (ValueError) -/
+theorem enum_dot_refused (st : NsState) (cpp ty : List Char) (a : Seg) :
+    resolveStep st (.value cpp ty) a = .error .enumDot := rfl
+
+/-- a name that is not a declared top-level namespace does not resolve -/
+theorem unknown_namespace_refused (st : NsState) (x : Seg) (rest : List Seg) (h : [x] ∉ st.nss) :
+    resolvePath st (x :: rest) = .error .noRep := by simp [resolvePath, h]
+
+-- non-vacuity (the literal of tests/atlas/xaod/test_enums.py)
+example :
+    (resolvePath (defineEnum NsState.empty "xAOD.Jet".toList "Color".toList ["Red".toList, "Blue".toList])
+      ["xAOD".toList, "Jet".toList, "Color".toList, "Red".toList]).toOption =
+    some (.value "xAOD::Jet::Red".toList "xAOD.Jet.Color".toList) := by decide
+
+end FaxVerif.C10
